@@ -200,6 +200,10 @@ def main():
                 continue
             n = nodes[idx[0]] if isinstance(idx, tuple) else nodes[idx]
             jobs.append((len(jobs), q, op, idx, desc, getattr(n, "lineno", 0), pids))
+    for i, x in enumerate(a):
+        if x == "--ids":
+            want = {int(v) for v in a[i + 1].split(",")}
+            jobs = [j for j in jobs if j[0] in want]
     if limit:
         import random
         random.Random(1).shuffle(jobs)
@@ -218,5 +222,74 @@ def main():
     print(f"mutants {n}: reported {det}, analysis-error only {err}, silent {n - det - err}  -> {out}")
 
 
+# ---- second stage: which silent mutants also survive the pinned test suite -----------------------------------------------------
+_WORK = {}
+
+
+def _suite_one(job):
+    mid, q, op, idx, desc, line, pids = job
+    pid = os.getpid()
+    root = _WORK.get(pid)
+    if root is None:
+        root = tempfile.mkdtemp(prefix="verif-mutsuite-")
+        subprocess.run(["rsync", "-a", "--exclude", ".git", "--exclude", "build", "--exclude", "__pycache__", REPO + "/", root + "/"], check=True)
+        _WORK[pid] = root
+    path, rest = module_file(q)
+    rel = os.path.relpath(path, REPO)
+    orig = open(path, encoding="utf-8").read()
+    tree = ast.parse(orig)
+    fn = find_function(tree, [r.split("#")[0] for r in rest])
+    if fn is None or not apply(fn, op, idx):
+        return None
+    ast.fix_missing_locations(tree)
+    dst = os.path.join(root, rel)
+    open(dst, "w", encoding="utf-8").write(ast.unparse(tree) + "\n")
+    try:
+        r = subprocess.run(["/venv/bin/python", "-m", "pytest", "-x", "-q", "-p", "no:cacheprovider", "--timeout=120", "tests"], cwd=root, capture_output=True, text=True,
+                           timeout=900, env=dict(os.environ, PYTHONDONTWRITEBYTECODE="1"))
+        tail = (r.stdout.strip().splitlines() or [""])[-1]
+        ok = r.returncode == 0
+    except subprocess.TimeoutExpired:
+        ok, tail = False, "timeout"
+    finally:
+        open(dst, "w", encoding="utf-8").write(orig)
+    return {"id": mid, "function": q, "op": op, "line": line, "text": desc, "suite_passes": ok, "tail": tail[-80:]}
+
+
+def survive(src, out):
+    silent = {json.loads(l)["id"] for l in open(src) if not json.loads(l)["detected_by"] and not json.loads(l)["analysis_errors"]}
+    tg = targets(None)
+    jobs = []
+    k = 0
+    for q, pids in sorted(tg.items()):
+        path, rest = module_file(q)
+        if path is None or not rest:
+            continue
+        tree = ast.parse(open(path, encoding="utf-8").read())
+        fn = find_function(tree, [r.split("#")[0] for r in rest])
+        if fn is None or not isinstance(fn, (ast.FunctionDef, ast.AsyncFunctionDef)):
+            continue
+        nodes = list(own(fn))
+        for op, idx, desc in points(fn):
+            n = nodes[idx[0]] if isinstance(idx, tuple) else nodes[idx]
+            if k in silent and not q.endswith(".__init__"):
+                jobs.append((k, q, op, idx, desc, getattr(n, "lineno", 0), pids))
+            k += 1
+    print(f"{len(jobs)} silent mutants (constructors excluded) go through the pinned suite", file=sys.stderr)
+    n = surv = 0
+    with ProcessPoolExecutor(max_workers=14) as ex, open(out, "w") as fo:
+        for r in ex.map(_suite_one, jobs, chunksize=1):
+            if r is None:
+                continue
+            n += 1
+            surv += r["suite_passes"]
+            fo.write(json.dumps(r) + "\n")
+            fo.flush()
+    print(f"silent mutants {n}: killed by the suite {n - surv}, survive {surv} -> {out}")
+
+
 if __name__ == "__main__":
-    main()
+    if len(sys.argv) > 1 and sys.argv[1] == "--survive":
+        survive(sys.argv[2], sys.argv[3])
+    else:
+        main()
